@@ -32,6 +32,20 @@ var properties = map[string]Prop{
 		Rule: "all strings over {Start, Stop, Stop(0), cancel} up to length 3 (4 thorough) on three actor trees, explored over message-level schedules incl. the Stop(0)-timer race; plus pairs of such strings on two threads explored at sync/atomic granularity up to the preemption bound; oracle: linearizable w.r.t. the ready->started->stopped machine, every call returns, clean stop leaves no registered actor and no thread; distinct_nontrivial = distinct result vectors per scenario",
 		Assumptions: schedAssumptions,
 	},
+	"C08": {
+		Parts:       []Part{{Harness: "sup", Args: []string{"-prop", "C08"}}},
+		Level:       "model_checking",
+		QuickBudget: 150, ThoroughBudget: 1500,
+		Rule: "delay-bounded DFS over message-level schedules of the real actor.System for the matrix failure-site{OnLaunch,user message,child OnKilled,scheduled message,OnKill} x cause{panic,Failed} x decision(6) x {one-for-one,one-for-all} + escalation chains to the system default + burst positions + repeated failures + failing hooks; oracle = reference supervision model (who is restarted/stopped/resumed/untouched, who is consulted); distinct_nontrivial = distinct per-actor trace summaries per scenario",
+		Assumptions: append([]string{coarseAssumption}, schedAssumptions...),
+	},
+	"C09": {
+		Parts:       []Part{{Harness: "sup", Args: []string{"-prop", "C09"}}},
+		Level:       "model_checking",
+		QuickBudget: 150, ThoroughBudget: 1500,
+		Rule: "same scenario matrix as C08; oracle = at quiescence no survivor paused / half-stopped / holding mail, queued burst delivered in order to the right incarnation, every survivor processes a probe sent after quiescence, zombies inert + releasable, System.Stop still terminates everything, no spin, no stuck thread; distinct_nontrivial = distinct per-actor trace summaries per scenario",
+		Assumptions: append([]string{coarseAssumption}, schedAssumptions...),
+	},
 	"C05": {
 		Parts:       []Part{{Harness: "c05"}},
 		Level:       "model_checking",
